@@ -499,11 +499,12 @@ def parse_sanitizer(report, gen_source):
 class Driver(object):
     """One running driver process; restarted transparently after a crash."""
 
-    def __init__(self, exe, module, gen_source, errlog, timeout=int(os.environ.get("VERIF_CDRV_TIMEOUT", "120"))):
+    def __init__(self, exe, module, gen_source, errlog, timeout=int(os.environ.get("VERIF_CDRV_TIMEOUT", "60"))):
         self.exe, self.module, self.gen_source, self.errlog, self.timeout = exe, module, gen_source, errlog, timeout
         self.p = None
         self.curtype = None
         self.restarts = 0
+        self.hangs = 0        # once a hang has been seen (a violation already), later waits are cut short
 
     def start(self):
         self.stop()
@@ -535,8 +536,9 @@ class Driver(object):
     def _readline(self):
         deadline = None
         while b'\n' not in self.buf:
-            r, _, _ = select.select([self.p.stdout], [], [], self.timeout)
+            r, _, _ = select.select([self.p.stdout], [], [], self.timeout if self.hangs == 0 else max(5, self.timeout // 12))
             if not r:
+                self.hangs += 1
                 self.stop()
                 raise Hang()
             chunk = os.read(self.p.stdout.fileno(), 1 << 16)
